@@ -64,7 +64,7 @@ def _pa(prog: Program, f: Func) -> PathAnalysis:
     return _PA[k]
 
 
-LATER_RULES = ' Later rules: evaluator membership by primitives, not by name; (R15.8) no memo keyed by evaluated values; (R15.9) no evaluated set reaches a call that can see its order. (R15.10) a false comprehension condition kills the whole comprehension, and only when nothing with an effect or of unknown value is evaluated before it. R15.4 (later form): the handler of the signal yields no rewrite at all, effect-free or not.'
+LATER_RULES = ' Later rules: evaluator membership by primitives, not by name; (R15.8) no memo keyed by evaluated values; (R15.9) no evaluated set reaches a call that can see its order. (R15.10) a false comprehension condition kills the whole comprehension, and only when nothing with an effect or of unknown value is evaluated before it. (R15.11) dead code is removed only after it was searched for yield. R15.4 (later form): the handler of the signal yields no rewrite at all, effect-free or not.'
 
 
 def check(prog: Program, tier: str) -> Result:
@@ -99,8 +99,9 @@ def check(prog: Program, tier: str) -> Result:
     _r15_8(prog, res, ev)
     _r15_9(prog, res, ev)
     _r15_10(prog, res, ev)
+    _r15_11(prog, res, ev)
     _r15_7(prog, res, ev)
-    res.floors.update({"R15.1": 23, "R15.2": 18, "R15.3": 2, "R15.4": 10, "R15.5": 2, "R15.6": 2, "R15.9": 2, "R15.10": 5})
+    res.floors.update({"R15.1": 23, "R15.2": 18, "R15.3": 2, "R15.4": 10, "R15.5": 2, "R15.6": 2, "R15.9": 2, "R15.10": 5, "R15.11": 8})
     res.analysed.update({"evaluator_functions": [f.fq for f in ev.members], "external_call_sites": len(ev.call_sites())})
     return res
 
@@ -212,6 +213,64 @@ def _set_where_dead(a: ast.Assign, falsy_branches, flags) -> bool:
                 return True
         child, p = p, parent(p)
     return False
+
+
+
+# ------------------------------------------------------------------------------------------------ R15.11
+def _mentions_yield_classes(tree: ast.AST) -> bool:
+    names = {norm(a) for a in ast.walk(tree) if isinstance(a, ast.Attribute)}
+    return {"ast.Yield", "ast.YieldFrom"} <= names
+
+
+def _r15_11(prog: Program, res: Result, ev: Evaluator) -> None:
+    """Code that is never reached still has one effect: a `yield` in it makes the enclosing function a generator
+    (`if False: yield`, `return; yield` are the idioms for an empty generator).  Where the evaluator decides the test of an
+    if / while / conditional expression, every rewrite of the same loop (deleting the dead branch, the statements after a
+    blocking one, choosing one arm) is reached only when a search for Yield / YieldFrom in the removed code - or in the
+    whole construct - came back empty."""
+    n = 0
+    seen = set()
+    for f, c in ev.call_sites():
+        if not (c.args and norm(c.args[0]).endswith(".test")) or not any(isinstance(x, ast.Yield) for x in walk_own(f.node)):
+            continue
+        loop = _enclosing(c, f, lambda x: isinstance(x, ast.For))
+        if loop is None or id(loop) in seen:
+            continue
+        seen.add(id(loop))
+        n += 1
+        # calls that search for yields: directly, or through a helper that does
+        tests = {}
+        for call in prog.calls_in(f):
+            direct = _mentions_yield_classes(call) and norm(call.func) in ("any", "bool", "next", "list")
+            helper = False
+            r = prog.resolve_call(call.func, f.mod, f)
+            if r and r[0] == "fn" and _mentions_yield_classes(r[1].node) and len(r[1].posparams) == 1:
+                helper = True
+            if (direct or helper) and call.args:
+                arg = call.args[0]
+                if direct:
+                    inner = next((x for x in ast.walk(call) if isinstance(x, ast.Call) and x is not call and x.args and _mentions_yield_classes(x)), None)
+                    arg = inner.args[0] if inner is not None else arg
+                tests[norm(call)] = norm(arg)
+        pa = PathAnalysis(prog, f)
+        loop_var = norm(loop.target)
+        for y in walk_body(loop.body):
+            if not isinstance(y, ast.Yield) or y.value is None:
+                continue
+            removed = norm(y.value.elts[0]) if isinstance(y.value, ast.Tuple) and y.value.elts else norm(y.value)
+            worlds = pa.worlds_at(y)
+            if not worlds:
+                continue
+            ok = True
+            for w in worlds:
+                neg = {plain(fct[1]) for fct in w.facts if fct[0] == "lit" and not fct[2]}
+                if not any(t in neg and tests[t] in (removed, loop_var) for t in tests):
+                    ok = False
+            res.decide(ok, "R15.11", f.loc(y), f.fq, f"{short(y, 70)} # rewrite of a construct with a decided test",
+                       "reached only when the removed code was searched for yield and has none" if ok else
+                       "dead code is removed without looking for a `yield` in it: `if False: yield` / `return; yield` make the function a generator, "
+                       "without them it is a plain function (calling it runs the body, iterating the result fails)")
+    res.analysed["decided_test_consumers"] = n
 
 
 
@@ -640,8 +699,8 @@ VARIANTS = [
             "            for value in node.values:\n                result = literal_value(value)\n                if not result:\n                    return result\n",
             "            for value in node.values:\n                result = literal_value(value)\n                if result:\n                    return result\n", "R15.5"),
     Variant("consumer-drops-handler", "FIRE", "fixes",
-            "        try:\n            value = core.literal_value(node.test)\n        except ValueError:\n            continue\n\n        if isinstance(node, ast.While) and not value and not node.orelse:",
-            "        value = core.literal_value(node.test)\n\n        if isinstance(node, ast.While) and not value and not node.orelse:", "R15.2"),
+            "        try:\n            value = core.literal_value(node.test)\n        except ValueError:\n            continue\n\n        if _has_yield(node):",
+            "        value = core.literal_value(node.test)\n\n        if _has_yield(node):", "R15.2"),
     Variant("consumer-yields-on-unknown", "FIRE", "fixes",
             "            try:\n                deterministic_value = core.literal_value(value)\n            except ValueError:\n                mask.append(unknown)",
             "            try:\n                deterministic_value = core.literal_value(value)\n            except ValueError:\n                mask.append(unknown)\n                yield value, None", "R15.4"),
@@ -660,6 +719,10 @@ VARIANTS = [
     Variant("dead-comprehension-iterables-not-tested", "FIRE", "fixes", "        if unknown_conditions_before or any(\n            core.has_side_effect(iterable, safe_callables) for iterable in iterables_before\n        ):", "        if unknown_conditions_before:", "R15.10"),
     Variant("dead-flag-reset-for-every-clause", "FIRE", "fixes", "            any_if_always_false = False\n            iterables_before.append(comprehension.iter)\n", "            any_if_always_false = False\n            comprehension_is_dead = False\n            iterables_before.append(comprehension.iter)\n", "R15.10"),
     Variant("dead-flag-set-in-the-false-branch-directly", "SILENT", "fixes", "                    any_if_always_false = True\n                    break\n", "                    any_if_always_false = True\n                    comprehension_is_dead = True\n                    break\n", "R15.10"),
+    Variant("dead-if-with-yield-removed", "FIRE", "fixes", "        if _has_yield(node):\n            continue  # e.g. \"if False: yield\", which is there to make a generator\n\n        if isinstance(node, ast.While) and not value and not node.orelse:", "        if isinstance(node, ast.While) and not value and not node.orelse:", "R15.11"),
+    Variant("yield-after-return-removed", "FIRE", "fixes", "                if not _has_yield(unreachable_node):  # e.g. \"return; yield\"\n                    yield unreachable_node, None, transaction", "                if unreachable_node:\n                    yield unreachable_node, None, transaction", "R15.11"),
+    Variant("yield-search-looks-for-return", "FIRE", "fixes", "    return any(core.walk(node, (ast.Yield, ast.YieldFrom)))", "    return any(core.walk(node, (ast.Return,)))", "R15.11"),
+    Variant("yield-search-written-inline", "SILENT", "fixes", "        if _has_yield(node):\n            continue  # e.g. \"if False: yield\", which is there to make a generator\n\n        if isinstance(node, ast.While) and not value and not node.orelse:", "        if any(core.walk(node, (ast.Yield, ast.YieldFrom))):\n            continue\n\n        if isinstance(node, ast.While) and not value and not node.orelse:", "R15.11"),
     Variant("same-text-on-both-sides-folded-to-true", "FIRE", "symbolic_math",
             "            right = core.literal_value(comparator)\n        except ValueError:\n            continue\n",
             "            right = core.literal_value(comparator)\n        except ValueError:\n            if isinstance(operator, ast.Eq) and core.unparse(node.left) == core.unparse(comparator) and not core.has_side_effect(node.left):\n                yield node, ast.Constant(value=True, kind=None)\n            continue\n", "R15.4"),
@@ -674,8 +737,8 @@ VARIANTS = [
     Variant("table-eq-as-lambda", "SILENT", "constants", "    ast.Eq: operator.eq,\n", "    ast.Eq: lambda a, b: a == b,\n"),
     Variant("table-reordered", "SILENT", "constants", "    ast.Eq: operator.eq,\n    ast.NotEq: operator.ne,\n", "    ast.NotEq: operator.ne,\n    ast.Eq: operator.eq,\n"),
     Variant("consumer-catches-more", "SILENT", "fixes",
-            "        try:\n            value = core.literal_value(node.test)\n        except ValueError:\n            continue\n\n        if isinstance(node, ast.While) and not value and not node.orelse:",
-            "        try:\n            value = core.literal_value(node.test)\n        except (ValueError, TypeError):\n            continue\n\n        if isinstance(node, ast.While) and not value and not node.orelse:"),
+            "        try:\n            value = core.literal_value(node.test)\n        except ValueError:\n            continue\n\n        if _has_yield(node):",
+            "        try:\n            value = core.literal_value(node.test)\n        except (ValueError, TypeError):\n            continue\n\n        if _has_yield(node):"),
 ]
 
 META = {
